@@ -579,7 +579,9 @@ def _main(prop, cfg, tier, seed, args, scratch, t0):
         div = v["div"]
         suite = next(s for s in suites if s["name"] == v["suite"])
         ops = div["ops"]
-        if div["kind"] in ("spec",) and harness is not None and len(ops) > 3:
+        if suite.get("shrink") == "prefix" and div.get("at") is not None:
+            ops = ops[:div["at"] + 1]   # histories are only meaningful as prefixes: cut after the failing line
+        elif div["kind"] in ("spec",) and harness is not None and len(ops) > 3:
             try:
                 ops = shrink(harness, suite, div, scratch)
             except Exception as e:
